@@ -3,6 +3,7 @@ import Abmarl.Model.MgrDriver
 import Abmarl.Model.GridDriver
 import Abmarl.Model.TrainerDriver
 import Abmarl.Model.BuildersDriver
+import Abmarl.Model.MaskDriver
 /-! Line-protocol driver: one request per line on stdin, one reply per line on stdout. -/
 open Abmarl
 
@@ -15,6 +16,7 @@ def dispatch (line : String) : String :=
       | "gmove" => GridDriver.handle args
       | "trainer" => TrainerDriver.handle args
       | "build" => BuildersDriver.handle args
+      | "mask" => MaskDriver.handle args
       | "ping" => some (.list (.atom "pong" :: args))
       | _ => none
     match r with
